@@ -10,7 +10,11 @@ boundary k.  The parent inspects the directory afterwards.
 Oracle: the destination holds exactly the old bytes (or is absent if it was
 absent) or exactly the bytes an unfaulted write produces; after a handled
 failure no other entry remains in the directory unless the fault hit a removal
-call of the clean-up itself.
+call of the clean-up itself.  A zip archive written as a whole is judged the same
+way on the contents of its members; when one member is added to an archive, the
+archive must stay sound, keep its old members, and hold the new member completely
+or not at all.  apply_to runs are killed before every store write and at every
+boundary inside one store write, resumed, and compared with an uninterrupted run.
 """
 
 from __future__ import annotations
@@ -23,6 +27,7 @@ import os
 import shutil
 import sys
 import tempfile
+import zipfile
 
 from hypothesis import strategies as st
 
@@ -32,30 +37,50 @@ PROPERTY_ID = "C19"
 LEVEL = "fault_enumeration"
 ISOLATION = "subprocess"
 RULE = (
-    "faults sub-check: a case is (writer, content seed, destination absent / pre-existing, optional formatting failure). "
+    "faults sub-checks: a case is (writer, content seed, destination absent / pre-existing, optional formatting failure). "
     "Writers: atomic_write directly (plain, .gz, .bz2), Alignment / ArrayAlignment / SequenceCollection / new-type "
     "SequenceCollection .write (fasta, phylip, json, gz), PhyloNode.write (newick, xml, json), Table.write (tsv, csv, tsv.gz, "
-    "json, pickle), DictArray.write, ScoredTreeCollection.write. For every case ALL file-system call boundaries of the write are "
-    "enumerated and each is faulted twice (OSError raised / process killed) in a forked child: evaluations = number of faulted "
-    "runs. resume sub-check: apply_to over n inputs into a directory or sqlite store is killed at the start of the (j+1)-th "
-    "store write for EVERY j, then re-run in append mode and compared with an uninterrupted run. Non-trivial = a fault at a "
-    "boundary after the temporary file is complete with a pre-existing destination (distinct (writer, boundary, kind) triples), "
-    "or a resume with at least one completed and one missing record."
+    "json, pickle), DictArray.write, ScoredTreeCollection.write. zip targets (faults_zip, and in faults_all_writers): "
+    "atomic_write('x.txt.zip') and object writers given an 'x.<fmt>.zip' path (the path names a whole archive: old bytes or a "
+    "sound archive with the complete new content), and atomic_write(member, in_zip=archive) in the three calling forms of the "
+    "library tests / docstring, its non-context form (write(); close()) and open_('x.txt.zip', 'wt') (one member is added: the "
+    "archive, absent or pre-existing with another member, must stay absent / a sound archive holding the old member unchanged, "
+    "the new member absent or complete; judged with ZipFile.testzip / namelist / read). Formatting failures: an exception in "
+    "the with block (atomic_write, open_), an unknown format (fasta writers), a formatter argument that is refused (phylip, "
+    "paml), info / params / cells that json or pickle refuse, a writer callable that raises or a delimiter csv refuses "
+    "(Table.write), a later tree of a collection without newick; and, for atomic_write / open_, a KeyboardInterrupt raised in "
+    "the with block (the process is interrupted while writing: nothing may be committed). For every case ALL file-system call boundaries of the write "
+    "are enumerated and each is faulted twice (OSError raised / process killed) in a forked child: evaluations = number of "
+    "faulted runs. resume sub-check: apply_to over n inputs into a directory or sqlite store is killed at the start of the "
+    "(j+1)-th store write for EVERY j, then re-run in append mode and compared with an uninterrupted run. resume_inside: "
+    "apply_to into a directory store is killed at EVERY file-system call boundary inside one store write (between the record "
+    "file and its checksum, and inside either), resumed in append mode, and completed / not-completed records with their "
+    "contents and the validate() table are compared with an uninterrupted run. Non-trivial = a fault at a boundary after the "
+    "temporary file is complete with a pre-existing destination (distinct (writer, boundary, kind) triples), a formatting "
+    "failure after the temporary file was opened over a pre-existing destination, a resume with at least one completed and one "
+    "missing record, or a kill inside a store write that was resumed."
 )
 ASSUMPTIONS = [
-    "a boundary is a C-level call made during the write whose owner is the posix module, _io.open, or an io object method write/flush/close/writelines; the dry run and the faulted run execute the same code up to the fault, so index k names the same call",
+    "a boundary is a C-level call made during the write whose owner is the posix module, _io.open, or an io object method write/flush/close/writelines/truncate/__exit__ (the close of a with block); calls made by the import machinery (a module imported lazily during the write) are not boundaries; the dry run and the faulted run execute the same code up to the fault, so index k names the same call",
     "durability across power loss (fsync ordering) is not modelled: only process death with an intact page cache",
     "after a kill, left-over temporaries are allowed; after a handled failure they are allowed only when the injected fault was inside shutil.rmtree (a failed removal cannot be required to have removed)",
-    "the complete new content is defined by an unfaulted write of the same object in the same process (writer correctness is C06/C20's subject); compressed files are compared after decompression",
+    "the complete new content is defined by an unfaulted write of the same object in the same process (writer correctness is C06/C20's subject); compressed files are compared after decompression; a zip archive written as a whole is compared by the contents of its members (atomic_write names the member with a random uuid)",
+    "zip, whole archive: atomic_write('x.zip') without in_zip stages a new archive and renames it over the destination (tests/test_util/test_io.py::test_writes_compressed_formats), so the destination is the old bytes or a sound archive with exactly the new content; members of a pre-existing archive are not expected to survive",
+    "zip, member added (in_zip=, open_ in write mode: test_atomic_write_noncontext, test_aw_zip_from_path, test_open_writes_zip, atomic_write docstring): all-or-nothing applies to the archive as the path being written: it stays a sound archive holding every old member with its bytes, the new member is absent or complete, and an archive that did not exist does not appear unless it holds the complete member (an empty or unreadable archive is 'absence not left untouched')",
+    "object writers (Alignment.write etc.) are nowhere documented or tested to accept a .zip path: one that refuses it without any injected fault (aln.write('x.fasta.zip'), tree.write('x.nwk.zip')) is not a violation of this property, but the refusal is a handled failure and is judged as one (destination untouched, no temporaries); coverage class zip-write-refused",
+    "non-context use (aw.write(); aw.close()) offers no way to abandon a write, so temporaries are judged only for faults raised inside close()",
+    "a formatting failure is any exception raised while the content is produced, by the library (unknown format, refused argument, unserialisable value) or by a callable / object the caller supplied (Table.write writer=, a tree without newick); which exception type the caller sees is not judged",
     "resume: inputs that already have a completed record must not be processed again; records that were not-completed may be processed again (directory store) or skipped (sqlite store), as each store's membership test documents",
+    "resume_inside: 'the same store as an uninterrupted run' is what the data store API shows: names and contents of completed and not-completed records (absolute paths inside not-completed records made relative) and the counts of validate(); files the API does not list (orphan checksum, left-over temporary directory after the kill) are not compared. Only the directory store is driven: the sqlite store writes a record and its checksum in one INSERT, with no boundary visible between",
 ]
 
 SCRATCH = os.path.join(os.path.dirname(os.path.dirname(os.path.abspath(__file__))), ".scratch")
 POSIX_FS = {
     "mkdir", "open", "stat", "lstat", "unlink", "remove", "rename", "replace", "rmdir", "scandir", "listdir",
     "close", "fstat", "chmod", "utime", "link", "symlink", "fsync", "ftruncate", "truncate", "access", "mkfifo",
+    "sendfile", "copy_file_range",
 }
-IO_METHODS = {"write", "flush", "close", "writelines", "truncate"}
+IO_METHODS = {"write", "flush", "close", "writelines", "truncate", "__exit__"}  # __exit__: the close made by a with block
 
 
 def is_fs_call(cfunc) -> bool:
@@ -71,13 +96,23 @@ def is_fs_call(cfunc) -> bool:
     return False
 
 
-def in_rmtree(frame) -> bool:
+AW_FILE = os.path.join("cogent3", "util", "io.py")
+
+
+def frame_flags(frame):
+    """(inside shutil.rmtree, inside atomic_write.close() / __exit__ = the commit and clean-up phase, inside the import machinery)"""
+    rm = aw = imp = False
     f = frame
     while f is not None:
-        if f.f_code.co_name in ("rmtree", "_rmtree_safe_fd", "_rmtree_unsafe") and f.f_code.co_filename.endswith("shutil.py"):
-            return True
+        co = f.f_code
+        if co.co_filename.startswith("<frozen importlib"):
+            imp = True
+        elif co.co_name in ("rmtree", "_rmtree_safe_fd", "_rmtree_unsafe") and co.co_filename.endswith("shutil.py"):
+            rm = True
+        elif co.co_name in ("close", "__exit__") and co.co_filename.endswith(AW_FILE):
+            aw = True
         f = f.f_back
-    return False
+    return rm, aw, imp
 
 
 class Boundaries:
@@ -92,8 +127,13 @@ class Boundaries:
     def __call__(self, frame, event, arg):
         if event != "c_call" or self.done or not is_fs_call(arg):
             return
+        rm, aw, imp = frame_flags(frame)
+        if imp:
+            # a module imported lazily during the write (e.g. by zipfile) is not part of the write: whether it happens
+            # depends on what the forking parent has already imported, and would shift the boundary numbering
+            return
         idx = len(self.calls)
-        self.calls.append((getattr(arg, "__name__", "?"), in_rmtree(frame)))
+        self.calls.append((getattr(arg, "__name__", "?"), rm, aw))
         if self.fault_at is not None and idx == self.fault_at:
             self.done = True
             if self.kind == "kill":
@@ -102,6 +142,23 @@ class Boundaries:
 
 
 # ------------------------------------------------------------------ writers
+class _Unpicklable:
+    """a table cell that cannot be pickled or serialised to json"""
+
+    def __reduce__(self):
+        raise ValueError("this cell cannot be pickled (formatting failure made by the harness)")
+
+    def __repr__(self):
+        return "cell"
+
+
+class _NoNewick:
+    """stands for a tree whose newick string cannot be made"""
+
+    def get_newick(self, with_distances=True, **kw):
+        raise ValueError("no newick for this tree (formatting failure made by the harness)")
+
+
 def _aln_rows(seed):
     import random
 
@@ -109,6 +166,14 @@ def _aln_rows(seed):
     n = rnd.randint(2, 4)
     L = rnd.randint(5, 70)
     return {f"seq{i}": "".join(rnd.choice("ACGT-") for _ in range(L)).replace("-", "A", 1) for i in range(n)}
+
+
+def _with_block_exception(spec):
+    """what leaves the with block of a bad_format case: a formatting failure, or (bad_exc = KeyboardInterrupt) the
+    interruption of the process by SIGINT while the content is being written"""
+    if spec.get("bad_exc") == "KeyboardInterrupt":
+        return KeyboardInterrupt("interrupted (raised by the harness inside the with block)")
+    return ValueError("formatting failed (injected by the harness inside the with block)")
 
 
 def make_writer(spec, seed):
@@ -119,6 +184,41 @@ def make_writer(spec, seed):
 
     kind = spec["writer"]
     bad = spec.get("bad_format", False)
+    if kind in ZIP_WRITERS and kind.startswith(("atomic", "open_")):
+        _, fname, member, _ = ZIP_WRITERS[kind]
+        text = "".join(f"line {i} of {seed}\n" for i in range(1 + seed % 40))
+
+        def opener(path):
+            if kind == "atomic.zip":  # tests/test_util/test_io.py::test_writes_compressed_formats
+                return atomic_write(path, mode="wt")
+            if kind in ("atomic.inzip", "atomic.inzip.noctx"):  # test_atomic_write_noncontext: path beside the archive
+                return atomic_write(path[: -len(".zip")], in_zip=path, mode="w")
+            if kind == "atomic.inzip.bool":  # test_aw_zip_from_path: archive name inferred from path
+                return atomic_write(path, in_zip=True, mode="w")
+            if kind == "atomic.inzip.rel":  # the form of the atomic_write docstring: member path relative to the archive
+                return atomic_write(member, in_zip=path, mode="w")
+            if kind == "open_.zip":  # test_open_writes_zip
+                from cogent3.util.io import open_
+
+                return open_(path, "wt")
+            raise HarnessError(f"unknown zip writer {kind}")
+
+        if kind.endswith(".noctx"):
+
+            def w(path):
+                aw = opener(path)
+                aw.write(text)
+                aw.close()
+
+        else:
+
+            def w(path):
+                with opener(path) as f:
+                    f.write(text)
+                    if bad:
+                        raise _with_block_exception(spec)
+
+        return fname, w
     if kind.startswith("atomic"):
         suffix = {"atomic.plain": "out.txt", "atomic.gz": "out.txt.gz", "atomic.bz2": "out.txt.bz2"}[kind]
         text = "".join(f"line {i} of {seed}\n" for i in range(1 + seed % 40))
@@ -127,7 +227,7 @@ def make_writer(spec, seed):
             with atomic_write(path, mode="wt") as f:
                 f.write(text)
                 if bad:
-                    raise ValueError("formatting failed (injected by the harness inside the with block)")
+                    raise _with_block_exception(spec)
 
         return suffix, w
     if kind.startswith(("aln", "arr", "coll", "newcoll")):
@@ -142,28 +242,52 @@ def make_writer(spec, seed):
         else:
             obj = make_unaligned_seqs({k: v.replace("-", "") for k, v in rows.items()}, moltype="dna", new_type=True)
         fname = "out." + fmt
-        if bad:
+        if bad and fmt.startswith("json"):
+            # to_json raises TypeError inside the with block of the writer
+            obj.info["unserialisable"] = {1, 2}
+            return fname, lambda path: obj.write(path)
+        if bad and fmt.startswith("fasta"):
             return fname, lambda path: obj.write(path, format="nonsense-format")
+        if bad:
+            # the formatter rejects the argument (TypeError) after the temporary file has been opened
+            return fname, lambda path: obj.write(path, nonsense_argument=1)
         return fname, lambda path: obj.write(path)
     if kind.startswith("tree."):
         tree = make_tree(f"((a:0.1,b:0.{1 + seed % 9}):0.05,c:0.3,(d:0.1,e:0.2):0.{1 + seed % 7})")
-        fname = {"tree.nwk": "out.nwk", "tree.json": "out.json", "tree.xml": "out.xml"}[kind]
-        return fname, lambda path: tree.write(path)
-    if kind.startswith("table"):
-        t = make_table(header=["name", "n", "x"], data=[[f"r{i}", i * seed % 17, i / 7] for i in range(1 + seed % 9)], title="t")
         fname = "out." + kind.split(".", 1)[1]
         if bad:
-            return fname, lambda path: t.write(path, format="nonsense-format")
+            tree.params["unserialisable"] = {1, 2}  # json.dumps raises TypeError inside the with block
+        return fname, lambda path: tree.write(path)
+    if kind.startswith("table"):
+        fmt = kind.split(".", 1)[1]
+        rows = [[f"r{i}", i * seed % 17, i / 7] for i in range(1 + seed % 9)]
+        fname = "out." + fmt
+        if bad and fmt.startswith(("pickle", "json")):
+            # a cell that can be neither pickled nor serialised: the failure comes after earlier cells were written
+            rows = [r[:2] + [_Unpicklable()] for r in rows]
+        t = make_table(header=["name", "n", "x"], data=rows, title="t")
+        if bad and fmt.startswith("tsv"):
+
+            def raising_writer(rows, has_header=False):
+                raise ValueError("formatting failed (raised by the writer callable given to Table.write)")
+
+            return fname, lambda path: t.write(path, writer=raising_writer)
+        if bad and fmt.startswith("csv"):
+            return fname, lambda path: t.write(path, sep="ab")  # csv.writer refuses the delimiter inside the with block
         return fname, lambda path: t.write(path)
-    if kind == "dictarray.tsv":
+    if kind.startswith("dictarray."):
         from cogent3.util.dict_array import DictArrayTemplate
 
         darr = DictArrayTemplate(["a", "b"], ["x", "y", "z"]).wrap([[1, 2, seed % 11], [4, 5, 6]])
-        return "out.tsv", lambda path: darr.write(path)
+        if bad:
+            return "out." + kind.split(".", 1)[1], lambda path: darr.write(path, format="nonsense-format")
+        return "out." + kind.split(".", 1)[1], lambda path: darr.write(path)
     if kind == "treecoll":
         from cogent3.phylo.tree_collection import ScoredTreeCollection
 
         trees = ScoredTreeCollection([(-(i + seed % 5), make_tree(f"(a:0.{i + 1},b:0.2,c:0.3)")) for i in range(3)])
+        if bad:
+            trees[1 + seed % 2] = (trees[1 + seed % 2][0], _NoNewick())  # the first tree(s) are written, then formatting fails
         return "out.trees", lambda path: trees.write(path)
     raise HarnessError(f"unknown writer {kind}")
     del cogent3
@@ -176,7 +300,54 @@ WRITERS = [
     "table.tsv", "table.csv", "table.tsv.gz", "table.json", "table.pickle",
     "dictarray.tsv", "treecoll",
 ]
-CAN_FAIL_FORMAT = {"atomic.plain", "atomic.gz", "aln.fasta", "arr.fasta", "coll.fasta", "newcoll.fasta"}
+CAN_FAIL_FORMAT = {
+    "atomic.plain", "atomic.gz", "aln.fasta", "arr.fasta", "coll.fasta", "newcoll.fasta",
+    "aln.fasta.gz", "aln.phylip", "arr.paml", "aln.json", "coll.json", "newcoll.json", "tree.json",
+    "table.tsv", "table.csv", "table.tsv.gz", "table.json", "table.pickle", "dictarray.tsv", "treecoll",
+}
+# zip targets.  writer: (semantics, archive file name, name of the member the write adds (None: not chosen by the caller),
+# name of the member a pre-existing archive holds).  "replace": the path names the whole archive, which the write replaces
+# (atomic_write(x.zip) without in_zip stages a new archive and renames it over the destination).  "append": the write adds
+# one member to the archive (in_zip=...), every other member must survive.
+ZIP_WRITERS = {
+    "atomic.zip": ("replace", "out.txt.zip", None, "keep.txt"),
+    "atomic.inzip": ("append", "out.txt.zip", "out.txt", "keep.txt"),
+    "atomic.inzip.bool": ("append", "out.txt.zip", "out.txt", "keep.txt"),
+    "atomic.inzip.rel": ("append", "out.zip", "out/seqs.tsv", "out/keep.tsv"),
+    "atomic.inzip.noctx": ("append", "out.txt.zip", "out.txt", "keep.txt"),
+    "open_.zip": ("append", "out.txt.zip", "out.txt", "keep.txt"),
+    "aln.fasta.zip": ("replace", "out.fasta.zip", None, "keep.txt"),
+    "aln.json.zip": ("replace", "out.json.zip", None, "keep.txt"),
+    "table.tsv.zip": ("replace", "out.tsv.zip", None, "keep.txt"),
+    "tree.json.zip": ("replace", "out.json.zip", None, "keep.txt"),
+    "tree.nwk.zip": ("replace", "out.nwk.zip", None, "keep.txt"),
+    "dictarray.tsv.zip": ("replace", "out.tsv.zip", None, "keep.txt"),
+}
+ZIP_CAN_FAIL_FORMAT = {"atomic.zip", "atomic.inzip", "atomic.inzip.rel", "open_.zip"}
+ZIP_KEEP = b"OLD MEMBER kept from an earlier run\n"
+
+
+def old_archive(member_name) -> bytes:
+    """bytes of the pre-existing archive: one stored member with a fixed date"""
+    buf = io.BytesIO()
+    with zipfile.ZipFile(buf, "w") as z:
+        z.writestr(zipfile.ZipInfo(member_name, date_time=(2020, 1, 1, 0, 0, 0)), ZIP_KEEP)
+    return buf.getvalue()
+
+
+def zip_state(path):
+    """(members, None) = {member name: bytes} of a sound archive, or (None, reason) when the file is not one"""
+    try:
+        with zipfile.ZipFile(path) as z:
+            bad = z.testzip()
+            if bad is not None:
+                return None, f"testzip reports a corrupt member {bad!r}"
+            names = z.namelist()
+            if len(set(names)) != len(names):
+                return None, f"duplicated member names {names}"
+            return {n: z.read(n) for n in names}, None
+    except Exception as e:  # noqa: BLE001 - an unreadable archive is the observation, reported with its reason
+        return None, f"{type(e).__name__}: {e}"
 
 
 def read_logical(path):
@@ -246,8 +417,21 @@ def _faults(s, case, root):
     writer = case["writer"]
     bad = case.get("bad_format", False)
     fname, fn = make_writer(case, case["seed"])
-    OLD = b"OLD CONTENT kept from an earlier run\n"
-    tag = writer + ("[format-error]" if bad else "")
+    zspec = ZIP_WRITERS.get(writer)
+    OLD = old_archive(zspec[3]) if zspec else b"OLD CONTENT kept from an earlier run\n"
+    tag = writer + (("[interrupt]" if case.get("bad_exc") == "KeyboardInterrupt" else "[format-error]") if bad else "")
+    # tgt: what the judge needs to know about the destination
+    tgt = {
+        "fname": fname,
+        "existing": case["existing"],
+        "OLD": OLD,
+        "zip": zspec[0] if zspec else None,
+        "member": zspec[2] if zspec else None,
+        "old_members": {zspec[3]: ZIP_KEEP} if zspec and case["existing"] else {},
+        "new": None,
+        # without a with block there is no way to abandon the write: temporaries are judged only for faults inside close()
+        "noctx": writer.endswith(".noctx"),
+    }
 
     def fresh_dir(i):
         d = os.path.join(root, f"run{i}")
@@ -265,11 +449,21 @@ def _faults(s, case, root):
         raise HarnessError(f"dry run of {writer} failed in the harness (exit {code})")
     calls = info["calls"]
     K = len(calls)
+    dest = f"destination {'pre-existing' if case['existing'] else 'absent'}"
     if bad:
         # a formatting failure is itself the fault under test
         s.check(code == 3, f"{tag}/format-error-not-raised", f"{writer}: write with an unusable format returned normally")
-        _judge(s, tag + "/format-error", d0, p0, fname, case["existing"], OLD, None, handled=True, fault_in_rmtree=False, what=f"{writer} formatting failure, destination {'pre-existing' if case['existing'] else 'absent'}")
-        new = None
+        _judge(s, tag + "/format-error", d0, p0, tgt, handled=True, fault_in_rmtree=False, what=f"{writer} formatting failure, {dest}")
+        if case["existing"] and any(c[0] == "open" for c in calls):
+            # the failure came after the temporary file had been opened, with a destination to lose
+            s.extra_nontrivial.append(f"{tag}/format-error")
+    elif code != 0 and zspec and not writer.startswith(("atomic", "open_")):
+        # no docstring or library test promises that this writer accepts a .zip path (only atomic_write / open_ are pinned):
+        # a refusal is not a violation, but it is a handled failure and must leave the directory as it was
+        s.cls(f"zip-write-refused:{writer}")
+        _judge(s, tag + "/write-refused", d0, p0, tgt, handled=True, fault_in_rmtree=False, what=f"{writer} raised {info['raised']} without any injected fault, {dest}")
+        s.evals = 1
+        return
     else:
         if code != 0:
             s.fail(f"{tag}/unfaulted-write-raises", f"{writer}: {info}")
@@ -277,29 +471,47 @@ def _faults(s, case, root):
         if not os.path.exists(p0):
             s.fail(f"{tag}/unfaulted-write-no-file", f"{writer}: {os.listdir(d0)}")
             return
-        new = read_logical(p0)
+        if tgt["zip"]:
+            members, why = zip_state(p0)
+            if members is None:
+                s.fail(f"{tag}/unfaulted-write-unsound-archive", f"{writer}, {dest}: {why}")
+                return
+            if tgt["zip"] == "append":
+                want = set(tgt["old_members"]) | {tgt["member"]}
+                if set(members) != want or any(members[k] != v for k, v in tgt["old_members"].items()):
+                    s.fail(f"{tag}/unfaulted-write-wrong-members", f"{writer}, {dest}: archive holds {sorted(members)}, expected {sorted(want)} with the old member unchanged")
+                    return
+                tgt["new"] = members[tgt["member"]]
+            else:
+                tgt["new"] = sorted(members.values())  # the member name is a random uuid: contents are compared
+        else:
+            tgt["new"] = read_logical(p0)
         s.check(sorted(os.listdir(d0)) == [fname], f"{tag}/unfaulted-write-leftovers", f"{writer}: {os.listdir(d0)}")
     s.cls(f"writer:{writer}", "existing" if case["existing"] else "absent", f"K={min(K, 40)}")
     evals = 1
-    # the commit point: first rename/replace of the run
-    commit = next((i for i, (nm, _) in enumerate(calls) if nm in ("rename", "replace")), None)
+    # the commit point: first rename/replace of the run; for an append into an archive, the opening of the archive
+    # (the first open made inside close() / __exit__)
+    if tgt["zip"] == "append":
+        commit = next((i for i, c in enumerate(calls) if c[0] == "open" and c[2] and not c[1]), None)
+    else:
+        commit = next((i for i, c in enumerate(calls) if c[0] in ("rename", "replace")), None)
     for k in range(K):
-        name_k, rm_k = calls[k]
+        name_k, rm_k, close_k = calls[k]
         for kind in ("raise", "kill"):
             d, p = fresh_dir(f"{k}{kind}")
             code, info2 = run_child(fn, p, k, kind)
             evals += 1
-            what = f"{writer} seed {case['seed']} destination {'pre-existing' if case['existing'] else 'absent'}: {kind} at boundary {k}/{K} ({name_k}{' in rmtree' if rm_k else ''}); calls {[c[0] for c in calls]}"
+            what = f"{writer} seed {case['seed']} {dest}: {kind} at boundary {k}/{K} ({name_k}{' in rmtree' if rm_k else ''}); calls {[c[0] for c in calls]}"
             if kind == "kill":
                 if code != 137:
                     # the boundary was not reached in this run (nondeterministic call sequence): inconclusive, not a violation
                     s.cls("kill-boundary-not-reached")
                     continue
-                _judge(s, f"{tag}/kill@{name_k}", d, p, fname, case["existing"], OLD, new, handled=False, fault_in_rmtree=rm_k, what=what)
+                _judge(s, f"{tag}/kill@{name_k}", d, p, tgt, handled=False, fault_in_rmtree=rm_k, what=what)
             else:
                 if code == 4:
                     raise HarnessError(f"child failed in harness: {what}")
-                _judge(s, f"{tag}/oserror@{name_k}{'[rmtree]' if rm_k else ''}", d, p, fname, case["existing"], OLD, new, handled=True, fault_in_rmtree=rm_k, what=what + f"; caller saw {info2 and info2['raised']}")
+                _judge(s, f"{tag}/oserror@{name_k}{'[rmtree]' if rm_k else ''}", d, p, tgt, handled=not tgt["noctx"] or close_k, fault_in_rmtree=rm_k, what=what + f"; caller saw {info2 and info2['raised']}")
             if case["existing"] and commit is not None and k >= commit - 2:
                 s.extra_nontrivial.append(f"{tag}/{k}/{kind}")
             shutil.rmtree(d, ignore_errors=True)
@@ -307,14 +519,23 @@ def _faults(s, case, root):
     s.nontrivial = bool(s.extra_nontrivial)
 
 
-def _judge(s, sig, d, p, fname, existing, OLD, new, handled, fault_in_rmtree, what):
+def _judge(s, sig, d, p, tgt, handled, fault_in_rmtree, what):
+    fname, existing, OLD, new = tgt["fname"], tgt["existing"], tgt["OLD"], tgt["new"]
     present = os.path.exists(p)
-    if present:
-        data = read_logical(p)
+    if present and tgt["zip"] == "append":
+        _judge_archive(s, sig, p, tgt, what)
+    elif present:
         raw_old = open(p, "rb").read() == OLD
-        ok = raw_old or (new is not None and data == new)
+        if tgt["zip"]:
+            members, why = (None, None) if raw_old else zip_state(p)
+            ok = raw_old or (new is not None and members is not None and sorted(members.values()) == new)
+            shown = why if members is None else f"members {sorted(members)}"
+        else:
+            data = read_logical(p)
+            ok = raw_old or (new is not None and data == new)
+            shown = f"{data[:60]!r}…"
         if not ok:
-            s.fail(sig + "/destination-partial-or-foreign", f"{what}: destination holds {data[:60]!r}… (neither the old nor the complete new content)")
+            s.fail(sig + "/destination-partial-or-foreign", f"{what}: destination holds {shown} (neither the old nor the complete new content)")
         if not existing and raw_old:
             s.fail(sig + "/destination-appeared", what)
     else:
@@ -326,22 +547,61 @@ def _judge(s, sig, d, p, fname, existing, OLD, new, handled, fault_in_rmtree, wh
             s.fail(sig + "/temporary-left-behind", f"{what}: directory also holds {extra}")
 
 
+def _judge_archive(s, sig, p, tgt, what):
+    """a member was being added to the archive at p: the archive must be sound, hold every old member unchanged, and the
+    new member is either absent or complete; an archive that did not exist stays absent unless the member is complete"""
+    old, member, new = tgt["old_members"], tgt["member"], tgt["new"]
+    # one root cause (the member is appended to the archive itself, not to a staged copy): the signature names only the
+    # kind of damage, the writer and the faulted call are in the message
+    sig = "zip-append/in-place-append"
+    members, why = zip_state(p)
+    if members is None:
+        s.fail(sig + ("/archive-corrupted" if tgt["existing"] else "/unsound-archive-appeared"), f"{what}: the archive cannot be read: {why}; size {os.path.getsize(p)}")
+        return
+    lost = sorted(k for k, v in old.items() if members.get(k) != v)
+    if lost:
+        s.fail(sig + "/old-member-lost", f"{what}: the archive holds {sorted(members)}; members of the pre-existing archive that are missing or changed: {lost}")
+    added = sorted(k for k in members if k not in old)
+    if not added:
+        if not tgt["existing"]:
+            s.fail(sig + "/empty-archive-appeared", f"{what}: there was no archive before the write, now there is one without the member")
+    elif added != [member] or new is None or members[member] != new:
+        got = members.get(member)
+        s.fail(sig + "/new-member-partial-or-foreign", f"{what}: members added {added}; {member!r} holds {got[:60] if got is not None else None!r}…, not the complete new content")
+
+
 @st.composite
 def fault_cases(draw):
     writer = draw(st.sampled_from(WRITERS))
     bad = writer in CAN_FAIL_FORMAT and draw(st.integers(0, 5)) == 0
-    return {"writer": writer, "seed": draw(st.integers(0, 10_000)), "existing": draw(st.booleans()), "bad_format": bad}
+    case = {"writer": writer, "seed": draw(st.integers(0, 10_000)), "existing": draw(st.booleans()), "bad_format": bad}
+    if bad and writer.startswith("atomic") and draw(st.booleans()):
+        case["bad_exc"] = "KeyboardInterrupt"
+    return case
 
 
 def enum_fault_cases(tier):
     out = []
-    for w in WRITERS:
+    for w in WRITERS + list(ZIP_WRITERS):
         for ex in (False, True):
             out.append({"writer": w, "seed": 7, "existing": ex, "bad_format": False})
-    for w in sorted(CAN_FAIL_FORMAT):
-        for ex in (False, True):
+    for w in sorted(CAN_FAIL_FORMAT | ZIP_CAN_FAIL_FORMAT):
+        # with an absent destination only for the writers enumerated that way from the start (the fixed replays name them)
+        for ex in (False, True) if w in ("atomic.plain", "atomic.gz", "aln.fasta", "arr.fasta", "coll.fasta", "newcoll.fasta", "atomic.inzip") else (True,):
             out.append({"writer": w, "seed": 7, "existing": ex, "bad_format": True})
+    for w in ("atomic.plain", "atomic.gz", "atomic.zip", "open_.zip"):
+        out.append({"writer": w, "seed": 7, "existing": True, "bad_format": True, "bad_exc": "KeyboardInterrupt"})
     return out
+
+
+@st.composite
+def zip_fault_cases(draw):
+    writer = draw(st.sampled_from(list(ZIP_WRITERS)))
+    bad = writer in ZIP_CAN_FAIL_FORMAT and draw(st.integers(0, 5)) == 0
+    case = {"writer": writer, "seed": draw(st.integers(0, 10_000)), "existing": draw(st.booleans()), "bad_format": bad}
+    if bad and draw(st.booleans()):
+        case["bad_exc"] = "KeyboardInterrupt"
+    return case
 
 
 # ------------------------------------------------------------------- resume
@@ -389,8 +649,10 @@ def _store_state(out):
     return comp, nc
 
 
-def _run_apply(root, case, die_at):
-    """runs apply_to in a forked child; the child dies at the start of the (die_at+1)-th store write"""
+def _run_apply(root, case, die_at, inside=None, record=None):
+    """runs apply_to in a forked child; the child dies at the start of the (die_at+1)-th store write, or, with inside=k,
+    at the k-th file-system call boundary inside that write.  record=path: every store write is profiled (no fault) and
+    the boundaries of each are written to path as a JSON list (one [method, call names] per store write, in run order)."""
     pid = os.fork()
     if pid == 0:
         code = 4
@@ -401,18 +663,36 @@ def _run_apply(root, case, die_at):
             out = _open_out(root, case, "w" if die_at is None or not os.path.exists(os.path.join(root, "started")) else "a")
             open(os.path.join(root, "started"), "w").close()
             count = [0]
+            seen = []
             for meth in ("write", "write_not_completed"):
                 orig = getattr(out, meth)
 
-                def hooked(*a, _orig=orig, **kw):
+                def hooked(*a, _orig=orig, _meth=meth, **kw):
                     if die_at is not None and count[0] == die_at:
-                        os._exit(137)
+                        if inside is None:
+                            os._exit(137)
+                        sys.setprofile(Boundaries(inside, "kill"))
+                        try:
+                            return _orig(*a, **kw)
+                        finally:
+                            sys.setprofile(None)
                     count[0] += 1
-                    return _orig(*a, **kw)
+                    if record is None:
+                        return _orig(*a, **kw)
+                    prof = Boundaries()
+                    sys.setprofile(prof)
+                    try:
+                        return _orig(*a, **kw)
+                    finally:
+                        sys.setprofile(None)
+                        seen.append([_meth, [c[0] for c in prof.calls]])
 
                 setattr(out, meth, hooked)
             app = _build_app(out)
             app.apply_to(ins, show_progress=False, logger=False)
+            if record is not None:
+                with open(record, "w") as f:
+                    json.dump(seen, f)
             if hasattr(out, "unlock"):
                 out.unlock(force=True)
             if hasattr(out, "close"):
@@ -538,17 +818,138 @@ def _resume(s, case, top):
     s.nontrivial = bool(s.extra_nontrivial)
 
 
+# ------------------------------------------------- resume, killed inside a record
+@st.composite
+def resume_inside_cases(draw):
+    n = draw(st.integers(2, 5))
+    short = draw(st.lists(st.booleans(), min_size=n, max_size=n))
+    return {"store": "dir", "n": n, "short": short, "seed": draw(st.integers(0, 999)), "record": draw(st.integers(0, n - 1))}
+
+
+def _full_state(root, case):
+    """what the data store API shows: completed records with content, not-completed records with content (paths made
+    relative to root), and the validate() table"""
+    out = _open_out(root, case, "r")
+    try:
+        comp = {str(m.unique_id): m.read() for m in out.completed}
+        nc = {os.path.basename(str(m.unique_id)): m.read().replace(root, "<ROOT>") for m in out.not_completed}
+        v = out.validate()
+        val = {str(row[0]): row[1] for row in v.to_list()}
+    finally:
+        if hasattr(out, "close"):
+            out.close()
+    return {"completed": comp, "not_completed": nc, "validate": val}
+
+
+def _resume_child(root, case):
+    """re-runs apply_to in append mode with a fresh app in a forked child; returns its exit status"""
+    pid = os.fork()
+    if pid == 0:
+        code = 4
+        try:
+            from cogent3 import open_data_store
+
+            ins = open_data_store(os.path.join(root, "inputs"), suffix="fasta", mode="r")
+            out2 = _open_out(root, case, "a")
+            _build_app(out2).apply_to(ins, show_progress=False, logger=False)
+            if hasattr(out2, "unlock"):
+                out2.unlock(force=True)
+            if hasattr(out2, "close"):
+                out2.close()
+            code = 0
+        except BaseException:  # noqa: BLE001
+            import traceback
+
+            with open(os.path.join(root, "child-error.txt"), "w") as f:
+                f.write(traceback.format_exc())
+            code = 3
+        finally:
+            os._exit(code)
+    _, st_ = os.waitpid(pid, 0)
+    return os.waitstatus_to_exitcode(st_)
+
+
+def exec_resume_inside(case) -> Soft:
+    s = Soft("C19/resume/")
+    os.makedirs(SCRATCH, exist_ok=True)
+    top = tempfile.mkdtemp(prefix="c19i.", dir=SCRATCH)
+    try:
+        _resume_inside(s, case, top)
+    finally:
+        shutil.rmtree(top, ignore_errors=True)
+    return s
+
+
+def _resume_inside(s, case, top):
+    n, store, j = case["n"], case["store"], case["record"]
+    ref_root = os.path.join(top, "ref")
+    os.makedirs(ref_root)
+    _make_inputs(ref_root, case)
+    rec = os.path.join(ref_root, "boundaries.json")
+    code = _run_apply(ref_root, case, None, record=rec)
+    if code != 0:
+        err = open(os.path.join(ref_root, "child-error.txt")).read() if os.path.exists(os.path.join(ref_root, "child-error.txt")) else ""
+        s.fail(f"{store}/uninterrupted-run-failed", f"exit {code}: {err[-400:]}")
+        return
+    want = _full_state(ref_root, case)
+    with open(rec) as f:
+        per_write = json.load(f)
+    if len(per_write) != n:
+        raise HarnessError(f"{len(per_write)} store writes recorded for {n} inputs")
+    meth_j, calls = per_write[j]  # j counts store writes in the order apply_to makes them (not the order of the input names)
+    kind_j = "not-completed" if meth_j == "write_not_completed" else "completed"
+    s.cls(f"inside:{store}", f"record:{kind_j}", f"K={len(calls)}")
+    evals = 1
+    for k in range(len(calls)):
+        root = os.path.join(top, f"k{k}")
+        os.makedirs(root)
+        _make_inputs(root, case)
+        code = _run_apply(root, case, j, inside=k)
+        what = f"{store} store, {n} inputs (short: {case['short']}), killed inside store write {j + 1} (a {kind_j} record) at boundary {k}/{len(calls)} ({calls[k]}); calls {calls}"
+        if code != 137:
+            s.cls("kill-boundary-not-reached")
+            shutil.rmtree(root, ignore_errors=True)
+            continue
+        sig = f"{store}/inside-{kind_j}"
+        try:
+            _full_state(root, case)
+        except Exception as e:  # noqa: BLE001
+            s.fail(f"{sig}/store-unreadable-after-kill", f"{what}: {type(e).__name__}: {e}")
+            continue
+        code = _resume_child(root, case)
+        evals += 1
+        if code != 0:
+            err = open(os.path.join(root, "child-error.txt")).read() if os.path.exists(os.path.join(root, "child-error.txt")) else ""
+            s.fail(f"{sig}/resume-raises", f"{what}: resumed apply_to failed: {err[-500:]}")
+            continue
+        got = _full_state(root, case)
+        want_here = json.loads(json.dumps(want).replace(ref_root, root))
+        s.eq(sorted(got["completed"]), sorted(want_here["completed"]), f"{sig}/completed-membership", what)
+        diff = sorted(k_ for k_, v in want_here["completed"].items() if k_ in got["completed"] and got["completed"][k_] != v)
+        s.check(not diff, f"{sig}/completed-content", f"{what}: records whose content differs from the uninterrupted run: {diff}; e.g. {got['completed'][diff[0]][:80]!r}" if diff else what)
+        s.eq(sorted(got["not_completed"]), sorted(want_here["not_completed"]), f"{sig}/not-completed-membership", what)
+        diff = sorted(k_ for k_, v in want_here["not_completed"].items() if k_ in got["not_completed"] and got["not_completed"][k_] != v)
+        s.check(not diff, f"{sig}/not-completed-content", f"{what}: not-completed records whose content differs from the uninterrupted run: {diff}; e.g. {got['not_completed'][diff[0]][:80]!r}" if diff else what)
+        s.eq(got["validate"], want_here["validate"], f"{sig}/validate", what)
+        s.extra_nontrivial.append(f"{kind_j}/{k}/{calls[k]}")
+        shutil.rmtree(root, ignore_errors=True)
+    s.evals = evals
+    s.nontrivial = bool(s.extra_nontrivial)
+
+
 SUBS = [
     Sub("faults_all_writers", exec_faults, enumerate=enum_fault_cases, exhaustive=True),
     Sub("faults", exec_faults, strategy=fault_cases(), quick=48, thorough=4000, shards_quick=16),
+    Sub("faults_zip", exec_faults, strategy=zip_fault_cases(), quick=16, thorough=1500, shards_quick=8),
+    Sub("resume_inside", exec_resume_inside, strategy=resume_inside_cases(), quick=12, thorough=800, shards_quick=4),
     Sub("resume", exec_resume, strategy=resume_cases(), quick=24, thorough=1600, shards_quick=12),
 ]
 
 KNOWN_PREDICATES = {}
 
 META = {
-    "technique": "exhaustive fault enumeration: every file-system call boundary of every writer, discovered by a profiled dry run, is faulted (OSError raised / process killed in a forked child); every prefix of an apply_to run is killed and resumed; contents generated by Hypothesis",
-    "level_text": "For each of 23 writer/format combinations, with the destination absent and pre-existing, every C-level file-system call made during the write (typically 12-40) is turned into a raised OSError and into real process death, and the directory is inspected from the parent: old-or-new destination, no temporaries after handled failures. Formatting failures are injected through unusable formats. apply_to runs over 2-8 inputs into both store kinds are killed before every store write and resumed in append mode.",
-    "level_note": "Boundaries are those visible to sys.setprofile as C calls (posix.*, _io.open, io object write/flush/close); faults inside C code that makes several system calls (e.g. one BufferedWriter.flush) are one boundary. Power-loss durability is out of scope.",
+    "technique": "exhaustive fault enumeration: every file-system call boundary of every writer, discovered by a profiled dry run, is faulted (OSError raised / process killed in a forked child); every prefix of an apply_to run, and every boundary inside one store write, is killed and resumed; contents generated by Hypothesis",
+    "level_text": "For each of 23 writer/format combinations and 12 zip targets (whole archives and members added to an archive, absent or pre-existing with another member), with the destination absent and pre-existing, every C-level file-system call made during the write (typically 12-40) is turned into a raised OSError and into real process death, and the directory is inspected from the parent: old-or-new destination (archives: sound, old members kept, new member absent or complete), no temporaries after handled failures. Formatting failures are injected for every writer kind (unknown format, refused formatter argument, unserialisable info / params / cells, raising writer callable, tree without newick, exception in the with block). apply_to runs over 2-8 inputs into both store kinds are killed before every store write, and at every boundary inside one write of a directory store, and resumed in append mode; records, contents and validate() are compared with an uninterrupted run.",
+    "level_note": "Boundaries are those visible to sys.setprofile as C calls (posix.*, _io.open, io object write/flush/close/__exit__); faults inside C code that makes several system calls (e.g. one BufferedWriter.flush, one sqlite INSERT) are one boundary. Power-loss durability is out of scope.",
     "design_ref": "DESIGN.md section 1, C19",
 }
